@@ -151,7 +151,7 @@ def _canon_nodes(nodes, invented):
             r = copy.deepcopy(r)
             for k in r.get("cases", []):
                 if k["type"] == "has_group" and k["arguments"]:
-                    k["arguments"] = [None] + list(k["arguments"][1:])
+                    k["arguments"] = [None] + list(k["arguments"][1:])   # group uuids are C06's subject (both sides)
             m["router"] = r
         out.append(ren(m))
     return out
